@@ -39,6 +39,8 @@ type Auth struct {
 	Response  string
 	Opaque    string // 暂时没用
 	Stale     string // 暂时没用
+
+	issuedNonce string // server side: 通过 MakeAuthenticate 下发给对端的nonce
 }
 
 // ParseAuthorization 解析字段，server side使用
@@ -147,7 +149,8 @@ func (a *Auth) MakeAuthenticate(method string) string {
 	case AuthTypeBasic:
 		return fmt.Sprintf("%s realm=\"%s\"", method, base.LalRtspRealm)
 	case AuthTypeDigest:
-		return fmt.Sprintf("%s realm=\"%s\", nonce=\"%s\"", method, base.LalRtspRealm, a.nonce())
+		a.issuedNonce = a.nonce()
+		return fmt.Sprintf("%s realm=\"%s\", nonce=\"%s\"", method, base.LalRtspRealm, a.issuedNonce)
 	}
 	return ""
 }
@@ -160,6 +163,11 @@ func (a *Auth) CheckAuthorization(method, username, password string) bool {
 			return true
 		}
 	case AuthTypeDigest:
+		// nonce必须是本端下发的nonce，realm必须是本端的realm，不能使用对端自己选择的值（比如从其他会话中截获的鉴权头）
+		if a.issuedNonce == "" || a.Nonce != a.issuedNonce || a.Realm != base.LalRtspRealm {
+			return false
+		}
+
 		// The "response" field is computed as:
 		// md5(md5(<username>:<realm>:<password>):<nonce>:md5(<cmd>:<url>))
 
